@@ -547,8 +547,33 @@ def run_check_single(pid, tier="quick", seed=None, replay=None, spec_override=No
     return rc_final, level, cov, violations
 
 
+def kill_strays():
+    """kill processes (e.g. agdb_server children of a harness that died) whose cwd is under /verif/.work"""
+    me = os.getpid()
+    for d in os.listdir("/proc"):
+        if not d.isdigit() or int(d) == me:
+            continue
+        try:
+            cwd = os.readlink("/proc/%s/cwd" % d)
+            exe = os.readlink("/proc/%s/exe" % d)
+        except OSError:
+            continue
+        if cwd.startswith(os.path.join(VERIF, ".work")) and "agdb_server" in exe:
+            try:
+                os.kill(int(d), 9)
+            except OSError:
+                pass
+
+
 def run_check(pid, tier="quick", seed=None, replay=None):
     """main run + the spec's `extra_runs` (other harness/driver pairs serving the same property)"""
+    try:
+        return _run_check(pid, tier, seed, replay)
+    finally:
+        kill_strays()
+
+
+def _run_check(pid, tier="quick", seed=None, replay=None):
     t0 = time.time()
     spec, mod = load_spec(pid)
     if seed is None:
